@@ -54,6 +54,18 @@ func randData(r *sim.Rand, n int, specials bool) []float64 {
 }
 
 func leafStep(r *sim.Rand, ids *idAlloc, client int, shape []int, tracked bool, specials bool) sim.Step {
+	if r.Bool(0.06) {
+		// a leaf from the library's constant constructors, with values from a small
+		// set: equal requests recur within a run and must still be separate tensors
+		v := []float64{1, 1, 0, 0.5, 2, -1}[r.Intn(6)]
+		switch {
+		case v == 1 && r.Bool(0.5):
+			return sim.Step{C: client, Op: "ones", Out: ids.New(), I: cpI(shape), B: tracked}
+		case v == 0 && r.Bool(0.5):
+			return sim.Step{C: client, Op: "zeros", Out: ids.New(), I: cpI(shape), B: tracked}
+		}
+		return sim.Step{C: client, Op: "full", Out: ids.New(), I: cpI(shape), F: []float64{v}, B: tracked}
+	}
 	return sim.Step{C: client, Op: "tensorof", Out: ids.New(), I: cpI(shape), F: randData(r, sim.NElems(shape), specials), B: tracked}
 }
 
